@@ -1,3 +1,4 @@
+mod common;
 mod core;
 mod explore;
 mod pdfgen;
@@ -12,6 +13,7 @@ type ReplayFn = fn(&Value, &mut Tally);
 
 fn registry() -> Vec<(&'static str, RunFn, ReplayFn)> {
     vec![
+        ("C03", props::c03::run, props::c03::replay),
         ("C05", props::c05::run, props::c05::replay),
         ("C16", props::c16::run, props::c16::replay),
     ]
